@@ -30,6 +30,10 @@ func verifKind(kind string) (string, []string) {
 	if kind == "webfinger" {
 		return verifAcceptWebfinger, []string{"application/jrd+json", "application/json"}
 	}
+	if kind == "narrow" {
+		/* what is asked for is not what is tolerated (as the package's own tests call it) */
+		return "application/activity+json", []string{"application/json"}
+	}
 	return verifAcceptActivity, []string{"application/activity+json", "application/ld+json", "application/json"}
 }
 
